@@ -38,9 +38,15 @@
 #define OFF_RP offsetof(rep0_pipe, rnode)
 
 /* the first context: the socket's own or a separately allocated one */
+#if defined(REP_C1M) && REP_C1M == 1
+#define REP_C1_PRE(s) (g_c1_master && PTR_IS(g_c1, (void *) &(s)->ctx))
+#elif defined(REP_C1M)
+#define REP_C1_PRE(s) (!g_c1_master && __CPROVER_is_fresh(g_c1, sizeof(struct rep0_ctx)))
+#else
 #define REP_C1_PRE(s)                                                      \
 	(g_c1_master ? PTR_IS(g_c1, (void *) &(s)->ctx)                        \
 	             : __CPROVER_is_fresh(g_c1, sizeof(struct rep0_ctx)))
+#endif
 /* s->recvq: contexts waiting for a request (each with its waiting aio).
  * The shape is fixed per unit by -DREP_RQ=0|1|2 (case split over the bound). */
 #if REP_RQ == 0
